@@ -435,7 +435,15 @@ impl Engine for E7 {
             invocations.push(McInv {
                 combo: prog.below(22) as u8,
                 n_tags,
-                key: hstr(&mut prog, 8),
+                key: if prog.chance(1, 10) {
+                    let mut k = hstr(&mut prog, 8);
+                    for i in 0..(40 + prog.usize_below(200)) {
+                        k.push(if i % 5 == 0 { '√' } else if i % 3 == 0 { 'é' } else { 'y' });
+                    }
+                    k
+                } else {
+                    hstr(&mut prog, 8)
+                },
                 num: if prog.chance(1, 5) { u64::MAX } else { prog.next_u64() >> prog.below(60) },
                 list_len: prog.usize_below(4),
                 dur: prog.weighted(&[60, 20, 20]) as u8,
